@@ -56,11 +56,17 @@ def entry_decision(p, R, keyterm):
     return None
 
 
+def engine(facts, inline=None, **kw):
+    """the animator rules reason about *calls* to Timeline methods: implementations of the trait are never inlined
+    (whether one happens to be loop-free, and so inlinable, is an accident of how it is written)"""
+    return pse.Engine(facts, inline=lambda fn, b: b.get("impl_trait") != TL_TRAIT and (inline is None or inline(fn, b)), **kw)
+
+
 def build(ctx, facts=None, adt_path=ANIM_ADT, trait=SA_TRAIT, crate="mina_core"):
     facts = facts or ctx.facts
     R = roles_of(facts, adt_path)
     body = facts.one(name="set_state", impl_self_adt=adt_path, impl_trait=trait)
-    eng = pse.Engine(facts)
+    eng = engine(facts)
     paths = eng.run(body)
     ctx.count_paths(paths, body)
     self_cell = ("M", ("param", 1))
